@@ -99,6 +99,9 @@ def build_class(outline):
     if key in _CLASS_CACHE:
         return _CLASS_CACHE[key]
     methods = {}
+    # every second class is built the way a step factory leaves it: all step functions share one __name__ ('stage'), all predicates
+    # another ('check'), and the class has unrelated attributes of exactly those names (never part of the outline)
+    factory_style = len(_CLASS_CACHE) % 2 == 1
 
     def mk_step(name):
         def step(self):
@@ -116,14 +119,14 @@ def build_class(outline):
             if r[0] == 'val':
                 return r[1]
             raise UserError(r[1])
-        step.__name__ = name
+        step.__name__ = 'stage' if factory_style else name
         return step
 
     def mk_pred(name):
         def pred(self):
             self._calls.append(['p', name])
             return self._preds.pop(0) if self._preds else False
-        pred.__name__ = name
+        pred.__name__ = 'check' if factory_style else name
         return pred
 
     def conv(t):
@@ -164,6 +167,14 @@ def build_class(outline):
         spec.outline(*cmds)
 
     ns = dict(methods)
+    if factory_style:
+        def stage(self):
+            self._calls.append(['s', 'NOT-IN-THE-OUTLINE'])
+
+        def check(self):
+            self._calls.append(['p', 'NOT-IN-THE-OUTLINE'])
+            return True
+        ns['stage'], ns['check'] = stage, check
     ns['define'] = classmethod(define)
     klass = type('WC_%d' % len(_CLASS_CACHE), (plumpy.WorkChain,), ns)
     _CLASS_CACHE[key] = klass
